@@ -84,6 +84,12 @@ def part(prop, out, with_render=False):
             ql = c['qualifiers']
             if not any(a == 'R' and b == 'R' for a, b in zip(ql, ql[1:])):
                 cands.append(dict(kernel='nesting:' + c['kernel'], prop=prop, what='nesting:' + c['kernel'], model=dict(qualifiers=ql, via='json' if c['kernel'] == 'from_json_type_inner' else 'sdl')))
+    if prop == 'C09':
+        # naming conventions must not reach the wire strings of enums either (value names unconstrained, normalization symbolic)
+        for nv in ((1, 2) if vc.tier() == 'quick' else (1, 2, 3)):
+            for c in K.k_enum_definition(R, nv):
+                if c['prop'] == 'C10' and c['model'].get('normalization') != 'None':
+                    cands.append(dict(c, prop=prop, what='C09:enum-wire-strings-depend-on-normalization'))
     C = consumer.Consumer(sc)
     seen = set()
     replayed = 0
@@ -96,11 +102,14 @@ def part(prop, out, with_render=False):
             ok, desc, rp = confirm(C, c['model'], other_variant=c['model'].get('fragments_other_variant', False))
         elif c['kernel'].startswith('nesting:'):
             ok, desc, rp = confirm_nesting(C, c['model'])
+        elif c['kernel'] == 'enum_definition':
+            import native
+            ok, desc, rp = confirm_enum_literals(native.ReplayTool(sc), c['model'])
         else:
             ok, desc, rp = confirm_required(C, c['model'])
         replayed += 1
         if ok is False:
-            out.violation('abstract:' + role if c['kernel'] == 'abstract_selection' else 'field:' + role, desc, dict(kind='solver', claim=c['what'], **rp))
+            out.violation('abstract:' + role if c['kernel'] == 'abstract_selection' else 'field:' + role, desc, dict(dict(kind='solver', claim=c['what']), **rp))
         elif ok is None:
             out.inconc(f'counterexample could not be replayed: {desc}')
         else:
@@ -110,6 +119,26 @@ def part(prop, out, with_render=False):
     ev = R.evidence()
     ev.update(paths=R.paths, obligations=R.obligations, discharged=R.discharged, replayed=replayed, samples=R.samples[:3])
     return ev
+
+
+def confirm_enum_literals(rt, model):
+    """replay of kernels.k_enum_definition: the wire literals in the real generator's output for an enum with the model's
+    value names (or, when those are not GraphQL names, names every naming convention changes)"""
+    import re
+    name_ok = re.compile(r'^[_A-Za-z][_0-9A-Za-z]*$')
+    vals = model['values']
+    if not (all(name_ok.match(v) for v in vals) and len(set(vals)) == len(vals)):
+        vals = ['NORTH', 'south_east', 'type'][:len(vals)]
+    sdl = f"enum E {{ {' '.join(vals)} }}\ntype Query {{ e: E }}\n"
+    opts = {'normalization': 'rust'} if model.get('normalization') == 'Rust' else {}
+    r = rt.gen(sdl, 'query Q { e }\n', opts)
+    lits = re.findall(r'"([^"]*)"', r['text']) if r['status'] == 'ok' else []
+    missing = [v for v in vals if lits.count(v) < 2]
+    rp = dict(kind='enum-literals', sdl=sdl, options=opts, values=vals, model=model)
+    if r['status'] != 'ok' or missing:
+        return False, (f"enum E {{ {' '.join(vals)} }} under normalization {model.get('normalization')}: the generated Serialize / Deserialize impls do not use the "
+                       f"schema's value names {missing} as wire strings"), rp
+    return True, 'wire literals are the schema value names', rp
 
 
 def confirm_nesting(C, model):
